@@ -67,6 +67,16 @@ CLAIMED = {
         "populated area return a fresh empty object and call nothing else. Coordinate values, ranges and filters are not decided.",
         "Trusted: Element.clone deep-copies (R10c); maps consistent with the XML (C02).",
         "DESIGN.md §4 C08"),
+    "C11": (
+        "interprocedural effect analysis of Document.save under all flag constants; freshness check at pretty_indent call sites; control-dependence analysis inside pretty_indent; TEXT_CONTENT table comparison with the registry and a frozen ODF schema table",
+        "Partial, structural. Decides that Document.save (pretty None/True/False), Container.save and the XmlPart serialisers reach no write into "
+        "the in-memory XML except the generator stamp; that pretty_indent is only applied to private copies; that inside pretty_indent every tail "
+        "write is unreachable under a textual parent and every text write unreachable for a textual element (one open known finding: the tail "
+        "written after a non-textual child of a textual parent); that TEXT_CONTENT contains the tags of the package's paragraph-like classes and "
+        "all 123 text-bearing elements of the frozen ODF 1.2 table; and that both flush arms serialise the same parts. "
+        "That indentation is the only difference of the output is value-level and not decided.",
+        "Trusted: the frozen list of ODF 1.2 elements with character content; ODF consumers ignore white space only in element-only content.",
+        "DESIGN.md §4 C11"),
     "C12": (
         "whole-registry static enumeration: registry replica in import order, PropDef/define pairing, constructor-argument flow by three-valued abstract execution, keyword-acceptance chains along the MRO, store-target resolution, getter/setter attribute agreement, namespace-prefix resolution",
         "Partial, structural, over the whole registry (not a sample): every Element subclass is registered once with an effective tag and is reachable "
